@@ -334,6 +334,7 @@ func init() {
 				}
 				return ParseCase{K: 6, Kind: "valid", Tokens: toks, Text: renderTokens(r, toks)}
 			}}},
+		Slices: []SliceRef{{"XBFLEX", 2500, 50000}},
 		Run:     runParseCase,
 		Cases:   defCases(6000, 150000),
 		Timeout: defDur(10*time.Second, 60*time.Second),
